@@ -23,9 +23,10 @@ VARIABLES
   pend,       \* ghost: expected responses not yet on stdout
   pendD,      \* ghost: per URI, expected diagnostics not yet on stdout
   lastD,      \* ghost: per URI the content of the last diagnostics written (NoDoc = none)
+  limbo,      \* document requests held by spawned sender tasks (only with the deviation SpawnOnFull)
   status,     \* process: None (running) | 10 | 11 (exit status 0 / 1) | 12 (ended by end of input)
   ok          \* no output so far contradicted the sequential semantics
-vars == <<g, nsent, closed, pipe, rphase, rwait, docq, ioq, docs, pend, pendD, lastD, status, ok>>
+vars == <<g, nsent, closed, pipe, rphase, rwait, docq, ioq, docs, pend, pendD, lastD, limbo, status, ok>>
 
 Idle == [w |-> "idle", id |-> 0, v |-> NoDoc]
 Running == status = None
@@ -35,7 +36,7 @@ Init ==
   /\ rphase = (IF StartMain THEN "main" ELSE "uninit") /\ rwait = Idle /\ docq = <<>> /\ ioq = <<>>
   /\ docs = [k \in Keys |-> NoDoc]
   /\ pend = <<>> /\ pendD = [u \in URIs |-> <<>>] /\ lastD = [u \in URIs |-> NoDoc]
-  /\ status = None /\ ok = TRUE
+  /\ limbo = {} /\ status = None /\ ok = TRUE
 
 RECURSIVE AddDiags(_, _)
 AddDiags(pd, outs) ==
@@ -53,11 +54,11 @@ ClientSend ==
        /\ pipe' = Append(pipe, [m |-> m, id |-> nsent + 1])
        /\ pend' = pend \o SelectSeq(r.out, LAMBDA o : o.k = "resp")
        /\ pendD' = AddDiags(pendD, r.out)
-  /\ UNCHANGED <<closed, rphase, rwait, docq, ioq, docs, lastD, status, ok>>
+  /\ UNCHANGED <<closed, rphase, rwait, docq, ioq, docs, lastD, status, ok, limbo>>
 
 ClientClose ==
   /\ ~closed /\ closed' = TRUE
-  /\ UNCHANGED <<g, nsent, pipe, rphase, rwait, docq, ioq, docs, pend, pendD, lastD, status, ok>>
+  /\ UNCHANGED <<g, nsent, pipe, rphase, rwait, docq, ioq, docs, pend, pendD, lastD, status, ok, limbo>>
 
 \* Reader: decode the next frame and act on it (one loop iteration of the current phase).
 \* A blocking channel send is an action that is disabled while the channel is full.
@@ -65,20 +66,23 @@ ReaderStep ==
   /\ Running /\ rphase \notin {"done", "abort"} /\ rwait.w = "idle" /\ pipe # <<>>
   /\ LET e == Head(pipe) m == e.m id == e.id
          respond(res) == /\ Len(ioq) < IoCap /\ ioq' = Append(ioq, Resp(id, res, NoDoc))
-                         /\ UNCHANGED <<docq, rwait, status>>
-         toBroker(t)  == /\ Len(docq) < DocCap /\ docq' = Append(docq, [t |-> t, u |-> m.u, v |-> m.v, id |-> id])
+                         /\ UNCHANGED <<docq, rwait, status, limbo>>
+         entry(t)     == [t |-> t, u |-> m.u, v |-> m.v, id |-> id]
+         toBroker(t)  == /\ IF SpawnOnFull /\ t = "change" /\ Len(docq) >= DocCap
+                            THEN limbo' = limbo \cup {entry(t)} /\ UNCHANGED docq          \* try_send failed: a spawned task will send it
+                            ELSE Len(docq) < DocCap /\ docq' = Append(docq, entry(t)) /\ UNCHANGED limbo
                          /\ UNCHANGED <<ioq, status>>
-         drop == UNCHANGED <<docq, ioq, rwait, status>>
+         drop == UNCHANGED <<docq, ioq, rwait, status, limbo>>
      IN
      /\ pipe' = Tail(pipe)
      /\ CASE m.t = "exit" ->
                \* shutdown phase: leave the loop, run() drains the channels and returns (status 0);
                \* elsewhere: process::exit(1)
                IF rphase = "shutdown"
-               THEN rphase' = "done" /\ UNCHANGED <<docq, ioq, rwait, status>>
+               THEN rphase' = "done" /\ UNCHANGED <<docq, ioq, rwait, status, limbo>>
                ELSE IF AbruptExit
-                    THEN status' = 11 /\ UNCHANGED <<rphase, docq, ioq, rwait>>
-                    ELSE rphase' = "abort" /\ UNCHANGED <<docq, ioq, rwait, status>>
+                    THEN status' = 11 /\ UNCHANGED <<rphase, docq, ioq, rwait, limbo>>
+                    ELSE rphase' = "abort" /\ UNCHANGED <<docq, ioq, rwait, status, limbo>>
           [] m.t # "exit" /\ rphase = "uninit" ->
                IF m.t = "init" THEN respond("ok") /\ rphase' = "initing"
                ELSE IF m.t \in Requests THEN respond("SNI") /\ UNCHANGED rphase
@@ -104,7 +108,7 @@ ReaderStep ==
 ReaderEof ==
   /\ Running /\ rphase \notin {"done", "abort"} /\ rwait.w = "idle" /\ pipe = <<>> /\ closed
   /\ rphase' = "done"
-  /\ UNCHANGED <<g, nsent, closed, pipe, rwait, docq, ioq, docs, pend, pendD, lastD, status, ok>>
+  /\ UNCHANGED <<g, nsent, closed, pipe, rwait, docq, ioq, docs, pend, pendD, lastD, status, ok, limbo>>
 
 \* Broker: one iteration of its receive loop.
 BrokerStep ==
@@ -118,14 +122,20 @@ BrokerStep ==
                                ELSE publish(Apply(docs[k], e)) /\ docs' = [docs EXCEPT ![k] = Apply(@, e)] /\ UNCHANGED rwait
           [] e.t = "close" -> docs' = [docs EXCEPT ![k] = NoDoc] /\ UNCHANGED <<ioq, rwait>>
           [] e.t = "get" -> rwait' = [w |-> "got", id |-> e.id, v |-> docs[k]] /\ UNCHANGED <<ioq, docs>>
-  /\ UNCHANGED <<g, nsent, closed, pipe, rphase, pend, pendD, lastD, status, ok>>
+  /\ UNCHANGED <<g, nsent, closed, pipe, rphase, pend, pendD, lastD, status, ok, limbo>>
+
+\* (deviation SpawnOnFull) a spawned sender task finally gets its message into doctx - in any order
+LimboDeliver ==
+  /\ Running /\ limbo # {} /\ Len(docq) < DocCap
+  /\ \E e \in limbo : docq' = Append(docq, e) /\ limbo' = limbo \ {e}
+  /\ UNCHANGED <<g, nsent, closed, pipe, rphase, rwait, ioq, docs, pend, pendD, lastD, status, ok>>
 
 \* Reader: the handler got the broker's reply and enqueues the response.
 ReaderRespond ==
   /\ Running /\ rwait.w = "got" /\ Len(ioq) < IoCap
   /\ ioq' = Append(ioq, Resp(rwait.id, "ok", rwait.v))
   /\ rwait' = Idle
-  /\ UNCHANGED <<g, nsent, closed, pipe, rphase, docq, docs, pend, pendD, lastD, status, ok>>
+  /\ UNCHANGED <<g, nsent, closed, pipe, rphase, docq, docs, pend, pendD, lastD, status, ok, limbo>>
 
 Matches(exp, got) == /\ exp.id = got.id /\ exp.v = got.v
                      /\ \/ exp.res = got.res
@@ -144,15 +154,15 @@ ResponderWrite ==
              /\ pendD' = [pendD EXCEPT ![o.u] = IF @ = <<>> THEN @ ELSE Tail(@)]
              /\ lastD' = [lastD EXCEPT ![o.u] = o.v]
              /\ UNCHANGED pend
-  /\ UNCHANGED <<g, nsent, closed, pipe, rphase, rwait, docq, docs, status>>
+  /\ UNCHANGED <<g, nsent, closed, pipe, rphase, rwait, docq, docs, limbo, status>>
 
 \* run(): all channels drained, tasks joined -> the process ends.
 ProcessEnd ==
-  /\ Running /\ rphase \in {"done", "abort"} /\ docq = <<>> /\ ioq = <<>>
+  /\ Running /\ rphase \in {"done", "abort"} /\ docq = <<>> /\ ioq = <<>> /\ limbo = {}
   /\ status' = IF rphase = "abort" THEN 11 ELSE IF g.phase = "exited" /\ pipe = <<>> THEN g.exit ELSE 12
-  /\ UNCHANGED <<g, nsent, closed, pipe, rphase, rwait, docq, ioq, docs, pend, pendD, lastD, ok>>
+  /\ UNCHANGED <<g, nsent, closed, pipe, rphase, rwait, docq, ioq, docs, pend, pendD, lastD, ok, limbo>>
 
-Next == ClientSend \/ ClientClose \/ ReaderStep \/ ReaderEof \/ BrokerStep \/ ReaderRespond \/ ResponderWrite \/ ProcessEnd
+Next == ClientSend \/ ClientClose \/ ReaderStep \/ ReaderEof \/ BrokerStep \/ LimboDeliver \/ ReaderRespond \/ ResponderWrite \/ ProcessEnd
 
 Fairness == /\ WF_vars(ReaderStep) /\ WF_vars(ReaderEof) /\ WF_vars(BrokerStep) /\ WF_vars(ReaderRespond)
             /\ WF_vars(ResponderWrite) /\ WF_vars(ProcessEnd)
@@ -186,7 +196,7 @@ NoDiagnosticsWithoutCapability ==
   ~DiagCap => (\A n \in 1..Len(ioq) : ioq[n].k # "diag") /\ (\A u \in URIs : lastD[u] = NoDoc)
 
 \* C20: isolation / closed is forgotten - when the broker has caught up, its state is the client's
-BrokerQuiet == pipe = <<>> /\ docq = <<>> /\ rwait.w = "idle"
+BrokerQuiet == pipe = <<>> /\ docq = <<>> /\ limbo = {} /\ rwait.w = "idle"
 Isolation == (Running /\ BrokerQuiet /\ rphase \in {"main", "shutdown"} /\ g.phase \in {"main", "shutdown"}) =>
                \A u \in URIs : docs[Key(u)] = g.docs[u] \/ (\E w \in URIs : w # u /\ Key(w) = Key(u))
 \* the same without the escape clause: refuted when two URIs share a key
